@@ -1,8 +1,8 @@
-\* the code as it is: every Dev_ branch taken
+\* the code as it is (after the repair 9b484b7: no Dev_ branch is taken any more)
 CONSTANTS
-  Dev_PrefixMatch = TRUE
-  Dev_NonSignalAttr = TRUE
-  Dev_AttributeError = TRUE
+  Dev_PrefixMatch = FALSE
+  Dev_NonSignalAttr = FALSE
+  Dev_AttributeError = FALSE
 INIT Init
 NEXT Next
 CHECK_DEADLOCK FALSE
